@@ -104,6 +104,18 @@ func c13Check(c c13Case) fw.Outcome {
 	if !sameF(bc.Center().X, lon) || !sameF(bc.Center().Y, lat) || !sameF(bc.Meters(), r) {
 		return fw.Failf(label, "Circle round trip changed centre or radius: (%v,%v,%v) -> (%v,%v,%v)", lon, lat, r, bc.Center().X, bc.Center().Y, bc.Meters())
 	}
+	// the parsed-back circle, serialised first into a caller's buffer that the caller then reuses, still
+	// serialises to the same text afterwards (the form is a function of centre and radius, not of call history)
+	{
+		buf := append(make([]byte, 0, 2*len(js)+32), "[0,"...)
+		first := bc.AppendJSON(buf)
+		for i, full := 0, first[:cap(first)]; i < len(full); i++ {
+			full[i] = 'Z'
+		}
+		if again := bc.JSON(); again != js {
+			return fw.Failf(label, "Circle serialised into a caller's buffer and then again gives %q, want %q", again, js)
+		}
+	}
 	km := `{"type":"Feature","geometry":{"type":"Point","coordinates":[` + fnum(lon) + `,` + fnum(lat) + `]},"properties":{"type":"Circle","radius":` + fnum(r) + `,"radius_units":"km"}}`
 	if ko, err := geojson.Parse(km, nil); err != nil {
 		return fw.Failf(label, "Parse rejects the km form %s: %v", km, err)
